@@ -19,10 +19,11 @@ import (
 // every agent must know every other agent and every exit route, each learned route's next
 // hop must be a connected peer, and a real stream opened along the learned route must reach
 // an echo server at the advertising agent's address (the exit only dials its own /24).
-// Streams are opened one at a time and the mesh is left to forget each before the next is
-// opened: stream identifiers are per connection and the tables are keyed by the bare
-// identifier (known finding C16/C17 stream-id-collision-across-peers), so two live streams
-// from different agents would exercise that class, not this property.
+// Stream identifiers are per connection and the tables are keyed by the bare identifier
+// (known finding C16/C17 stream-id-collision-across-peers); even a late close frame of a
+// tunnel that has ended hits a new tunnel with the same number on another connection. That
+// class is not this property: the counters of all connections are moved into disjoint
+// ranges first, and streams are opened one at a time.
 
 func TestVP_C12_Mesh(t *testing.T) {
 	st := vp.NewStats("C12", "mesh", "3-6 real agents in a generated connected topology, each exit for 127.<n>.0.0/24; convergence after announcements, next hop is a peer, and a real TCP stream from every agent to every other agent's network is echoed; non-trivial = the topology has a cycle or a path of >= 3 hops")
@@ -89,6 +90,7 @@ func TestVP_C12_Mesh(t *testing.T) {
 			}
 		}
 		m.announce()
+		m.spreadStreamIDs()
 		// graph distances
 		dist := func(src int) []int {
 			d := make([]int, n)
